@@ -61,6 +61,11 @@ func Parse(filename string, data []byte) (*File, error) {
 		f.Meta[k] = v
 	}
 
+	// seen holds the raw (undecoded) names of the records visited so far.
+	// It must be keyed by the raw name: f.Count is keyed by the decoded
+	// name, which differs for stack counters, so it cannot detect a cycle
+	// through a stack counter record.
+	seen := make(map[string]bool)
 	for i := uint32(0); i < numHash; i++ {
 		headOff := hdrLen + hashOff + i*4
 		head := m.load32(headOff)
@@ -70,9 +75,10 @@ func Parse(filename string, data []byte) (*File, error) {
 			if !ok {
 				return corrupt()
 			}
-			if _, ok := f.Count[string(ename)]; ok {
+			if seen[string(ename)] {
 				return corrupt()
 			}
+			seen[string(ename)] = true
 			ctrName := DecodeStack(string(ename))
 			f.Count[ctrName] = v.Load()
 			off = next
